@@ -124,7 +124,11 @@ def bodyValue (W : World) (fn : Fn) (env : Env) (results : List RVal) : RVal :=
   let ps := fn.params.filterMap (fun p => lookupKw p.name env)
   let vs := fn.vars.map (fun nv => RVal.py nv.2)
   let ext := if fn.usesExt then [RVal.str ("ext" ++ toString W.extVersion)] else []
-  .str (termStr fn.tag (ps ++ vs ++ ext ++ results))
+  let ws := match fn.ws with
+    | none => []
+    | some true => [RVal.str "a"]
+    | some false => [RVal.str "b"]
+  .str (termStr fn.tag (ps ++ vs ++ ext ++ results ++ ws))
 
 /-- `_eval` inside an evaluation context: `requested : path ↦ key` was fixed by the analysis -/
 def keepExec (requested : List (String × Sg)) (rec : RunRec) (st : XSt) (path : String) (g : Fn) (env : Env) : XRes :=
